@@ -169,6 +169,34 @@ static void cx_call_all(const secp256k1_context *c, jout *out, int full) {
       if (secp256k1_ec_seckey_tweak_add(CTX, sum, CX_SK)) { memset(&ws, 0, sizeof(ws)); f.ret = secp256k1_whitelist_sign(c, &ws, on, off, 2, &CXI.pk, CX_SK, sum, 0);
         if (f.ret) { secp256k1_whitelist_signature_serialize(c, ser, &sl, &ws); cx_add(&f, ser, sl); f.ret += 2 * secp256k1_whitelist_verify(c, &ws, on, off, 2, &CXI.pk); } }
       cx_end(&f, out, "f_whitelist"); }
+    /* the optional-argument spellings of the signing calls (NULL auxiliary randomness / NULL extra parameters / explicit
+     * nonce function with extra data): a result that absorbs context state only on the defaulted path shows up here */
+    FAM { unsigned char s64[64]; cx_begin(&f); memset(s64, 0, 64); f.ret = secp256k1_schnorrsig_sign32(c, s64, CX_MSG, &CXI.kp, NULL); cx_add(&f, s64, 64); cx_end(&f, out, "f_schnorr_sign_noaux"); }
+    FAM { unsigned char s64[64]; secp256k1_schnorrsig_extraparams ep = SECP256K1_SCHNORRSIG_EXTRAPARAMS_INIT; cx_begin(&f); memset(s64, 0, 64);
+          f.ret = secp256k1_schnorrsig_sign_custom(c, s64, CX_MSG, 32, &CXI.kp, NULL); cx_add(&f, s64, 64);
+          f.ret += 2 * secp256k1_schnorrsig_sign_custom(c, s64, CX_MSG, 17, &CXI.kp, &ep); cx_add(&f, s64, 64);
+          ep.ndata = (void*)CX_SK2; f.ret += 4 * secp256k1_schnorrsig_sign_custom(c, s64, CX_MSG, 0, &CXI.kp, &ep); cx_add(&f, s64, 64); cx_end(&f, out, "f_schnorr_sign_custom"); }
+    FAM { secp256k1_ecdsa_signature s; cx_begin(&f); memset(&s, 0, sizeof(s)); f.ret = secp256k1_ecdsa_sign(c, &s, CX_MSG, CX_SK, secp256k1_nonce_function_rfc6979, (void*)CX_SK2); cx_add(&f, &s, sizeof(s)); cx_end(&f, out, "f_ecdsa_sign_ndata"); }
+    FAM { unsigned char a[162]; cx_begin(&f); memset(a, 0, 162); f.ret = secp256k1_ecdsa_adaptor_encrypt(c, a, (unsigned char*)CX_SK, &CXI.pk2, CX_MSG, secp256k1_nonce_function_ecdsa_adaptor, (void*)CX_SK2); cx_add(&f, a, 162); cx_end(&f, out, "f_adaptor_encrypt_ndata"); }
+    FAM { secp256k1_musig_secnonce sn; secp256k1_musig_pubnonce pn; unsigned char rnd[32]; cx_begin(&f); memset(rnd, 0x43, 32); memset(&pn, 0, sizeof(pn));
+      f.ret = secp256k1_musig_nonce_gen(c, &sn, &pn, rnd, NULL, &CXI.pk, NULL, NULL, NULL); cx_add(&f, &pn, sizeof(pn)); cx_end(&f, out, "f_musig_nonce_gen_min"); }
+    /* a complete two-signer MuSig session on context c (both signers local): aggregate key, nonces, partial signatures, final signature */
+    FAM { const secp256k1_pubkey *pks[2]; secp256k1_xonly_pubkey agg; secp256k1_musig_keyagg_cache cache; secp256k1_musig_secnonce sn[2]; secp256k1_musig_pubnonce pn[2];
+      const secp256k1_musig_pubnonce *pnp[2]; secp256k1_musig_aggnonce an; secp256k1_musig_session ses; secp256k1_musig_partial_sig ps[2]; const secp256k1_musig_partial_sig *psp[2];
+      secp256k1_keypair kp2; unsigned char rnd[32], sig[64]; int r = 1;
+      cx_begin(&f); pks[0] = &CXI.pk; pks[1] = &CXI.pk2; pnp[0] = &pn[0]; pnp[1] = &pn[1]; psp[0] = &ps[0]; psp[1] = &ps[1]; memset(sig, 0, 64);
+      r = r && secp256k1_keypair_create(CTX, &kp2, CX_SK2);
+      r = r && secp256k1_musig_pubkey_agg(c, &agg, &cache, pks, 2);
+      memset(rnd, 0x51, 32); r = r && secp256k1_musig_nonce_gen(c, &sn[0], &pn[0], rnd, CX_SK, &CXI.pk, CX_MSG, &cache, NULL);
+      memset(rnd, 0x52, 32); r = r && secp256k1_musig_nonce_gen(c, &sn[1], &pn[1], rnd, CX_SK2, &CXI.pk2, CX_MSG, &cache, NULL);
+      r = r && secp256k1_musig_nonce_agg(c, &an, pnp, 2);
+      r = r && secp256k1_musig_nonce_process(c, &ses, &an, CX_MSG, &cache, NULL);
+      r = r && secp256k1_musig_partial_sign(c, &ps[0], &sn[0], &CXI.kp, &cache, &ses);
+      r = r && secp256k1_musig_partial_sign(c, &ps[1], &sn[1], &kp2, &cache, &ses);
+      r = r && secp256k1_musig_partial_sig_verify(c, &ps[0], &pn[0], &CXI.pk, &cache, &ses);
+      r = r && secp256k1_musig_partial_sig_agg(c, sig, &ses, psp, 2);
+      r = r && secp256k1_schnorrsig_verify(c, sig, CX_MSG, 32, &agg);
+      f.ret = r; cx_add(&f, sig, 64); cx_end(&f, out, "f_musig_session"); }
 }
 static void op_CtxCallAll(const jv *in, jout *out) {
     int s = (int)jv_int(in, "s", 0);
